@@ -305,6 +305,51 @@ theorem restart_restores_after_crash (h : List HEv) (e : HEv) (fl : Files) (hfl 
     (∃ c n v, e = .observe c n v ∧ RestoreEq fl ((Abs.run h).step (.cancel c n))) :=
   L.stages_restore h e fl hfl
 
+/-! ### the endpoint an observation came in on (server contexts with several endpoints)
+
+`coap_persist_observe_add_lkd` re-creates the session of a stored observation on the endpoint of the restarted context
+whose protocol and `bind_addr` equal the record's (`findEp`, Model/Persist.lean); a record for which the search fails is
+dropped.  `eps` = `context->endpoint` of the restarted server (any number of endpoints, any order), `via c` = the endpoint
+the session of client `c` came in through. -/
+
+/-- **Every UDP endpoint of the context is found**, whatever its position in `context->endpoint` and whatever other
+endpoints exist: the search returns an endpoint of the context with exactly that protocol and bind address. -/
+theorem endpoint_search_finds (eps : List Ep) (e : Ep) (he : e ∈ eps) (hp : e.proto = protoUdp) :
+    ∃ e', findEp eps e.proto e.addr = some e' ∧ e' ∈ eps ∧ e'.proto = e.proto ∧ e'.addr = e.addr :=
+  findEp_mem he hp
+
+/-- … and nothing else is: a session is only ever re-created on an endpoint of the context that has the record's
+protocol (UDP) and listen address. -/
+theorem endpoint_search_sound (eps : List Ep) (proto : Nat) (listen : Bytes) (e : Ep)
+    (h : findEp eps proto listen = some e) : e ∈ eps ∧ e.proto = proto ∧ e.addr = listen ∧ proto = protoUdp := by
+  simp only [findEp] at h
+  by_cases hp : proto = protoUdp
+  · simp only [hp, ne_eq, not_true_eq_false, if_false] at h
+    have := epWalk_some h
+    exact ⟨this.1, by rw [hp]; exact this.2.1, this.2.2, hp⟩
+  · simp [hp] at h
+
+/-- **For every history, every set of endpoints and every assignment of clients to (UDP) endpoints of the context**:
+restarted with the same endpoints, the observe loader re-establishes exactly the observations registered and not
+cancelled — no observation is lost because of the endpoint it was registered through. -/
+theorem restart_restores_endpoints (h : List HEv) (eps : List Ep) (via : Nat → Ep)
+    (hvia : ∀ c, via c ∈ eps ∧ (via c).proto = protoUdp) :
+    RestoreEqVia eps via (L.run h).files (Abs.run h) := by
+  refine ⟨(restart_restores h).1, ?_⟩
+  rw [restoredObsVia_eq eps via hvia]; exact (restart_restores h).2
+
+/-- … also after a crash at any point of the last event (`restart_restores_after_crash` with endpoints). -/
+theorem restart_restores_endpoints_after_crash (h : List HEv) (e : HEv) (fl : Files) (hfl : fl ∈ L.stages (L.run h) e)
+    (eps : List Ep) (via : Nat → Ep) (hvia : ∀ c, via c ∈ eps ∧ (via c).proto = protoUdp) :
+    RestoreEqVia eps via fl (Abs.run h) ∨ RestoreEqVia eps via fl (Abs.run (h ++ [e])) ∨
+    (∃ c n v, e = .observe c n v ∧ RestoreEqVia eps via fl ((Abs.run h).step (.cancel c n))) := by
+  have hv : ∀ a, RestoreEq fl a → RestoreEqVia eps via fl a := by
+    intro a ha; refine ⟨ha.1, ?_⟩; rw [restoredObsVia_eq eps via hvia]; exact ha.2
+  rcases restart_restores_after_crash h e fl hfl with h1 | h1 | ⟨c, n, v, he, h1⟩
+  · exact Or.inl (hv _ h1)
+  · exact Or.inr (Or.inl (hv _ h1))
+  · exact Or.inr (Or.inr ⟨c, n, v, he, hv _ h1⟩)
+
 /-! ### the Observe counter -/
 
 /-- **No Observe value is repeated or goes backwards across a restart** (plain order; the counter does not wrap
@@ -341,5 +386,11 @@ example : Cnt.InvW 10 ⟨16777215, 16777210, [], [16777210, 16777215]⟩ := by d
 example : (Cnt.run 10 ⟨16777215, 16777210, [], [16777215]⟩ [.notify, .notify]).recent = [0, 1] := by decide
 example : (L.run [.create [97], .observe 1 [97] 0, .observe 1 [97] 1, .create [98], .delete [98]]).restoredObs = [(1, [97], 1)] := by
   decide
+-- two endpoints (context order: the one created last first); client 0 came in through the one created first
+example : (L.run [.create [97], .observe 0 [97] 0, .observe 3 [97] 1]).files.restoredObsVia
+    [⟨1, [2, 0, 0xB2, 0x75]⟩, ⟨1, [2, 0, 0xB2, 0x73]⟩] (fun c => if c < 3 then ⟨1, [2, 0, 0xB2, 0x73]⟩ else ⟨1, [2, 0, 0xB2, 0x75]⟩) =
+    [(0, [97], 0), (3, [97], 1)] := by decide
+-- an endpoint that no longer exists (or a record of another protocol) is not found: the hypothesis `via c ∈ eps` matters
+example : findEp [⟨1, [2, 0, 0xB2, 0x75]⟩] 1 [2, 0, 0xB2, 0x73] = none ∧ findEp [⟨2, [5]⟩] 2 [5] = none := by decide
 
 end Coap.C17
